@@ -80,7 +80,7 @@ $(BUILD)/thr_tsan.o: /verif/engines/thr.cpp
 	@mkdir -p $(BUILD)
 	$(CLANGXX) $(CXXFLAGS_COMMON) $(TSAN) $(INC) -c $< -o $@
 $(BUILD)/thr: $(BUILD)/thr_tsan.o $(BUILD)/core_tsan.o
-	$(CLANGXX) $(TSAN) $^ -o $@ -lpthread
+	$(CLANGXX) $(TSAN) -Wl,--wrap=_Znwm,--wrap=_Znam $^ -o $@ -lpthread
 
 -include $(wildcard $(BUILD)/*.d)
 .SECONDARY:
